@@ -257,11 +257,19 @@ def make_core(env):
             env.mixer_mute = m
             return Fut(True)
 
-    orig_send = listener_mod.send
+    import pykka
+
+    orig_get_by_class = pykka.ActorRegistry.__dict__["get_by_class"]
     orig_shuffle = tracklist_mod.random.shuffle
 
-    def fake_send(cls, event, **kwargs):
-        env.events.append((event, kwargs))
+    class ListenerRef:
+        """Stands for one registered listener actor: the REAL mopidy.listener.send runs and
+        tells it the ProxyCall(on_event, event, kwargs); recorded synchronously (no thread)."""
+
+        def tell(self, message):
+            env.events.append((message.args[0], dict(message.kwargs)))
+
+    _ref = ListenerRef()
 
     class _Random:
         @staticmethod
@@ -269,7 +277,7 @@ def make_core(env):
             lst[:] = shuffle_perm(env.shuffle_seed, lst)
             env.shuffle_seed += 1
 
-    listener_mod.send = fake_send
+    pykka.ActorRegistry.get_by_class = classmethod(lambda c, actor_class: [_ref])
     tracklist_mod.random = _Random
     config = {"core": {"max_tracklist_length": env.max_len, "restore_state": True,
                        "data_dir": env.data_dir if hasattr(env, "data_dir") else "/nonexistent"}}
@@ -278,7 +286,7 @@ def make_core(env):
     def restore():
         import random as _r
 
-        listener_mod.send = orig_send
+        pykka.ActorRegistry.get_by_class = orig_get_by_class
         tracklist_mod.random = _r
 
     return core, restore
